@@ -1,4 +1,5 @@
 """C19 - thread-safe queue / thread pool under every schedule with <= k deviations (DESIGN.md 5, C19)."""
+import os
 LEVEL = "model_checking"
 RULE = ("stateless exploration of the real Queue<int>/Pool code under the vsched cooperative scheduler: every interleaving at mutex "
         "lock (thorough: and unlock), atomic-flag hook, thread create points, every waiter choice of notify_one and every "
@@ -11,13 +12,17 @@ DEADLINE = {"quick": 200, "thorough": 1500}
 
 def build(ctx):
     vs = ctx.vsched_obj()
-    return {"h19": ctx.build("h19", ["h19.cpp"], flags=["-fno-access-control"], opt="-O1", objects=[vs])}
+    return {"h19": ctx.build("h19", ["h19.cpp"], flags=["-fno-access-control"], opt="-O1", objects=[vs]),
+            "h19tsan": ctx.build_tsan_free("h19tsan", ["h19.cpp"], flags=["-fno-access-control"])}
 
 
 def run(ctx):
-    exe = build(ctx)["h19"]
+    exes = build(ctx)
     if getattr(ctx, "build_only", False):
         return
-    ctx.run_harness(exe, [])
+    # free-running ThreadSanitizer companion first (short): guards the 'sync points are sufficient' assumption
+    ctx.run_harness(exes["h19tsan"], ["--iterations", "30" if ctx.tier == "quick" else "300"],
+                    env={"TSAN_OPTIONS": "halt_on_error=0:exitcode=66:suppressions=" + os.path.join(os.path.dirname(os.path.dirname(ctx.checkdir)), "engine", "vsched", "tsan.supp")}, timeout=120)
+    ctx.run_harness(exes["h19"], [])
     ctx.assume("the scheduler is sequentially consistent; no spurious condition-variable wake-ups are generated; "
                "a size of max_size + producers - 1 is allowed (check-then-act window of push())")
